@@ -34,13 +34,21 @@ pub struct Cfg {
     pub max_tx: usize,
     pub user: String,
     pub password: String,
+    /// order of the builder calls (index into BUILDER_ORDERS)
+    pub order: u8,
 }
+
+/// the orders in which the three optional builder calls can be made (index = Cfg::order)
+pub const BUILDER_ORDERS: [[&str; 3]; 6] = [
+    ["max", "mech", "fp"], ["fp", "mech", "max"], ["mech", "max", "fp"], ["fp", "max", "mech"],
+    ["max", "fp", "mech"], ["mech", "fp", "max"],
+];
 
 impl Cfg {
     pub fn to_json(&self) -> Value {
         json!({"reliable": self.reliable, "timeout": self.timeout_us, "rto": self.rto_us,
                "gran": self.gran_us, "rm": self.rm, "rc": self.rc, "mech": self.mech,
-               "preset": self.st_preset, "fp": self.fp, "max_tx": self.max_tx})
+               "preset": self.st_preset, "fp": self.fp, "max_tx": self.max_tx, "order": self.order})
     }
     pub fn from_json(v: &Value) -> Cfg {
         Cfg {
@@ -56,6 +64,7 @@ impl Cfg {
             max_tx: v["max_tx"].as_u64().unwrap_or(10) as usize,
             user: v["user"].as_str().unwrap_or("alice").to_string(),
             password: v["password"].as_str().unwrap_or("s3cret-pass").to_string(),
+            order: v["order"].as_u64().unwrap_or(0) as u8,
         }
     }
 }
@@ -140,6 +149,8 @@ pub struct Driver {
     /// an unread one, as in the client itself) so that a wrapper can hand them to its caller
     pub keep_events: bool,
     pub kept: Vec<StunClientEvent>,
+    /// FINGERPRINT value of the latest inbound message with a valid one, per transaction id
+    pub last_fp: HashMap<i64, [u8; 4]>,
 }
 
 /// attribute type codes of the application attribute kinds (in the order given)
@@ -184,31 +195,25 @@ impl Driver {
                 rc: cfg.rc,
             })
         };
-        let mut b = StunClienteBuilder::new(rel).with_max_transactions(cfg.max_tx);
-        match cfg.mech.as_str() {
-            "st" => {
-                let preset = match cfg.st_preset.as_str() {
-                    "mi" => Some(Integrity::MessageIntegrity),
-                    "sha" => Some(Integrity::MessageIntegritySha256),
-                    _ => None,
-                };
-                b = b.with_mechanism(
-                    cfg.user.clone(),
-                    cfg.password.clone(),
-                    CredentialMechanism::ShortTerm(preset),
-                );
-            }
-            "lt" => {
-                b = b.with_mechanism(
-                    cfg.user.clone(),
-                    cfg.password.clone(),
-                    CredentialMechanism::LongTerm,
-                );
-            }
-            _ => {}
-        }
-        if cfg.fp {
-            b = b.with_fingerprint();
+        let mut b = StunClienteBuilder::new(rel);
+        let steps: [&str; 3] = BUILDER_ORDERS[cfg.order as usize % BUILDER_ORDERS.len()];
+        for st in steps {
+            b = match st {
+                "max" => b.with_max_transactions(cfg.max_tx),
+                "fp" => if cfg.fp { b.with_fingerprint() } else { b },
+                _ => match cfg.mech.as_str() {
+                    "st" => {
+                        let preset = match cfg.st_preset.as_str() {
+                            "mi" => Some(Integrity::MessageIntegrity),
+                            "sha" => Some(Integrity::MessageIntegritySha256),
+                            _ => None,
+                        };
+                        b.with_mechanism(cfg.user.clone(), cfg.password.clone(), CredentialMechanism::ShortTerm(preset))
+                    }
+                    "lt" => b.with_mechanism(cfg.user.clone(), cfg.password.clone(), CredentialMechanism::LongTerm),
+                    _ => b,
+                },
+            };
         }
         let client = b.build().map_err(|e| format!("{:?}", e))?;
         let mut d = Driver {
@@ -230,6 +235,7 @@ impl Driver {
             raw_log: Vec::new(),
             keep_events: false,
             kept: Vec::new(),
+            last_fp: HashMap::new(),
         };
         let snap = d.snap_json();
         d.lines
@@ -457,6 +463,11 @@ impl Driver {
         let types: Vec<u64> = p.attrs.iter().map(|a| a.t as u64).collect();
         let fp = obs::fingerprint_status(b, &p);
         let fp_last = p.attrs.last().map(|a| a.t == obs::T_FP).unwrap_or(false);
+        if !outbound && fp == "valid" && fp_last && b.len() >= 4 {
+            let mut v = [0u8; 4];
+            v.copy_from_slice(&b[b.len() - 4..]);
+            self.last_fp.insert(idn, v);
+        }
         // reference key
         let (key, ltd) = self.srv.reference_key(&self.cfg, b, &p, outbound);
         let mi = obs::integrity_status(b, &p, obs::T_MI, key.as_deref());
@@ -771,9 +782,40 @@ impl Driver {
                 }
             }
         }
+        if hk == "unknown_attr" {
+            // an attribute of a type nobody registered (comprehension-required 0x7F11 or -optional
+            // 0xFF11), placed before the integrity / fingerprint attributes so that they cover it
+            let sel = h["s"].as_u64().unwrap_or(0);
+            let t = if sel % 2 == 0 { 0x7F11u16 } else { 0xFF11 };
+            let v: Vec<u8> = (0..(sel % 7)).map(|i| (0xC0 + i) as u8).collect();
+            let pos = items.iter().position(|it| !matches!(it, Item::Raw(..))).unwrap_or(items.len());
+            items.insert(pos, Item::Raw(t, v));
+        }
         let mut bytes = obs::build(method, m.class, &id, &items);
         // ... or at byte level afterwards
         match hk {
+            "fake_fp" => {
+                // no FINGERPRINT attribute at all, but the value of a last, unregistered attribute ends
+                // with what would be one: 80 28 00 04 <crc of everything before those eight bytes>
+                if obs::parse(&bytes).map(|p| p.attrs.iter().all(|a| a.t != obs::T_FP)).unwrap_or(false) {
+                    bytes.extend_from_slice(&[0xFF, 0x12, 0x00, 0x0C, 0xDE, 0xAD, 0xBE, 0xEF, 0x80, 0x28, 0x00, 0x04, 0, 0, 0, 0]);
+                    let l = (bytes.len() - 20) as u16;
+                    bytes[2..4].copy_from_slice(&l.to_be_bytes());
+                    let n = bytes.len();
+                    let crc = obs::crc32(&bytes[..n - 8]) ^ obs::FP_XOR;
+                    bytes[n - 4..].copy_from_slice(&crc.to_be_bytes());
+                }
+            }
+            "reuse_fp" => {
+                // a FINGERPRINT value that was right for an earlier, different message with this id
+                let n = bytes.len();
+                let idn = self.idn(&id);
+                if let (Some(old), true) = (self.last_fp.get(&idn).copied(), n >= 28 && bytes[n - 8..n - 4] == [0x80, 0x28, 0x00, 0x04]) {
+                    if bytes[n - 4..] != old {
+                        bytes[n - 4..].copy_from_slice(&old);
+                    }
+                }
+            }
             "bitflip" if !bytes.is_empty() => {
                 let i = h["off"].as_u64().unwrap_or(0) as usize % bytes.len();
                 bytes[i] ^= 1 << (h["s"].as_u64().unwrap_or(0) % 8);
